@@ -48,7 +48,8 @@ TRUSTED = [
 ASSUMPTIONS = ["a failed trial is one the loop reports through on_trial_error; workers of other trials obey their contracts"]
 RULE = ("cases: (hb) real HyperbandScheduler of all types incl. model-based searchers with failures at random points of a trial's "
         "life, against the model; (sync) real synchronous Hyperband with failure subsets, against the model; (loop) real Tuner runs "
-        "with failing trials and max_failures, against the loop model; (generic) every scheduler the library ships driven with "
+        "with failing trials and max_failures (scripted back-end; simulator back-end with runs that fail before their first report, "
+        "judged against the simulator's own complete events), against the loop model; (generic) every scheduler the library ships driven with "
         "5-30% failures: no scheduler call may raise, a failed trial is never resumed, other trials keep getting decisions; (probe) "
         "DEHB with few brackets under a watchdog. distinct by sha256 of the spec; non-trivial iff at least one trial failed and "
         "at least one other trial got a decision afterwards")
